@@ -29,6 +29,7 @@ type voJob struct {
 	A     string `json:"a"`
 	B     string `json:"b"`
 	Iters int    `json:"iters"`
+	Fill  int    `json:"fill"` // the stream holds at least this many batches when the job starts
 }
 
 type voPlan struct {
@@ -39,6 +40,7 @@ type voPlan struct {
 type voSys struct {
 	o      *OutputStream
 	next   uint64
+	since  uint64 // batches added since the stream was last emptied
 	panics int64
 }
 
@@ -57,6 +59,7 @@ func (v *voSys) some(r *rand.Rand) robust.Id {
 var voDrivers = map[string]func(v *voSys, r *rand.Rand){
 	"Add": func(v *voSys, r *rand.Rand) {
 		id := atomic.AddUint64(&v.next, 1)
+		atomic.AddUint64(&v.since, 1)
 		v.o.Add([]Message{
 			{Id: robust.Id{Id: id, Reply: 1}, Data: "PING", InterestingFor: map[uint64]bool{1: true}},
 			{Id: robust.Id{Id: id, Reply: 2}, Data: "PONG", InterestingFor: map[uint64]bool{2: true}},
@@ -119,6 +122,7 @@ var voDrivers = map[string]func(v *voSys, r *rand.Rand){
 			defer voRecover(v)
 			v.o.reset()
 		}()
+		atomic.StoreUint64(&v.since, 0)
 	},
 }
 
@@ -183,6 +187,12 @@ func TestVerifRaceStream(t *testing.T) {
 		}
 		// a few messages so that hits exist (a Close job starts an empty stream)
 		for k := 0; k < 6; k++ {
+			func() {
+				defer voRecover(v)
+				voDrivers["Add"](v, nil)
+			}()
+		}
+		for job.Fill > 0 && atomic.LoadUint64(&v.since) < uint64(job.Fill) {
 			func() {
 				defer voRecover(v)
 				voDrivers["Add"](v, nil)
